@@ -91,6 +91,8 @@ def _solve_cvc5(smt2, timeout_s):
 
 def _solve(args):
     smt2, timeout_ms, use_cvc5 = args
+    if use_cvc5 == 'single':
+        return _solve_z3((smt2, timeout_ms, 0))
     r = _solve_z3((smt2, timeout_ms, 0))
     if r[0] == 'unknown':
         r2 = _solve_z3((smt2, timeout_ms, 7))
